@@ -1,6 +1,5 @@
 /-
-  VModel.Hash — SHA-256 (FIPS 180-4) and unpadded base64 (RFC 4648, standard and URL-safe
-  alphabets) as executable functions, so that the driver can evaluate the event models with the
+  VModel.Hash — SHA-256 (FIPS 180-4) as an executable function, so that the driver can evaluate the event models with the
   hash the library uses.  Core Lean only.
 
   The theorems about events never unfold `sha256`: every model function takes the hash as a
@@ -81,67 +80,6 @@ def sha256 (msg : Bytes) : Bytes := Id.run do
   for i in [0:b.size / 64] do
     h := compress h (schedule b (64 * i))
   return h.toList.flatMap (fun (x : UInt32) => [(x >>> 24).toUInt8, (x >>> 16).toUInt8, (x >>> 8).toUInt8, x.toUInt8])
-
-/-! ## unpadded base64 -/
-
-def stdAlphabet : Bytes := "ABCDEFGHIJKLMNOPQRSTUVWXYZabcdefghijklmnopqrstuvwxyz0123456789+/".toUTF8.toList
-def urlAlphabet : Bytes := "ABCDEFGHIJKLMNOPQRSTUVWXYZabcdefghijklmnopqrstuvwxyz0123456789-_".toUTF8.toList
-
-/-- the character of a 6-bit value: letters and digits are common to both alphabets -/
-def b64Char (url : Bool) (n : Nat) : UInt8 :=
-  if n < 26 then UInt8.ofNat (0x41 + n)
-  else if n < 52 then UInt8.ofNat (0x61 + (n - 26))
-  else if n < 62 then UInt8.ofNat (0x30 + (n - 52))
-  else if n == 62 then (if url then 0x2D else 0x2B)
-  else (if url then 0x5F else 0x2F)
-
-/-- `base64.Raw{Std,URL}Encoding.EncodeToString` -/
-def b64Encode (url : Bool) : Bytes → Bytes
-  | a :: b :: c :: rest =>
-    let n := a.toNat * 65536 + b.toNat * 256 + c.toNat
-    b64Char url (n / 262144) :: b64Char url (n / 4096 % 64) :: b64Char url (n / 64 % 64) :: b64Char url (n % 64) :: b64Encode url rest
-  | [a, b] =>
-    let n := a.toNat * 65536 + b.toNat * 256
-    [b64Char url (n / 262144), b64Char url (n / 4096 % 64), b64Char url (n / 64 % 64)]
-  | [a] =>
-    let n := a.toNat * 65536
-    [b64Char url (n / 262144), b64Char url (n / 4096 % 64)]
-  | [] => []
-
-def b64Val (url : Bool) (c : UInt8) : Option Nat :=
-  if 0x41 ≤ c && c ≤ 0x5A then some (c.toNat - 0x41)
-  else if 0x61 ≤ c && c ≤ 0x7A then some (c.toNat - 0x61 + 26)
-  else if 0x30 ≤ c && c ≤ 0x39 then some (c.toNat - 0x30 + 52)
-  else if c == (if url then 0x2D else 0x2B) then some 62
-  else if c == (if url then 0x5F else 0x2F) then some 63
-  else none
-
-/-- `base64.Raw{Std,URL}Encoding.DecodeString` (non-strict: trailing bits are ignored; `\r` and
-    `\n` are skipped by Go's decoder — not modelled: such input is answered `none` here and the
-    callers treat it as outside the model). -/
-def b64DecodeWith (url : Bool) : Bytes → Option Bytes
-  | a :: b :: c :: d :: rest =>
-    match b64Val url a, b64Val url b, b64Val url c, b64Val url d, b64DecodeWith url rest with
-    | some x, some y, some z, some w, some r =>
-      let n := ((x * 64 + y) * 64 + z) * 64 + w
-      some (UInt8.ofNat (n / 65536) :: UInt8.ofNat (n / 256 % 256) :: UInt8.ofNat (n % 256) :: r)
-    | _, _, _, _, _ => none
-  | [a, b, c] =>
-    match b64Val url a, b64Val url b, b64Val url c with
-    | some x, some y, some z =>
-      let n := ((x * 64 + y) * 64 + z) * 64
-      some [UInt8.ofNat (n / 65536), UInt8.ofNat (n / 256 % 256)]
-    | _, _, _ => none
-  | [a, b] =>
-    match b64Val url a, b64Val url b with
-    | some x, some y => some [UInt8.ofNat ((x * 64 + y) / 16)]
-    | _, _ => none
-  | [_] => none
-  | [] => some []
-
-/-- `spec.Base64Bytes.Decode`: URL-safe alphabet iff the text contains `-` or `_` -/
-def base64BytesDecode (s : Bytes) : Option Bytes :=
-  b64DecodeWith (s.any (fun c => c == 0x2D || c == 0x5F)) s
 
 end Hash
 end V
